@@ -194,4 +194,324 @@ theorem lemma_pyInt_natRepr (n : Nat) (hn : n < 1000) : pyInt (natRepr n) = some
     omega
   simp [this]
 
+/-! ### canonical rendering -/
+
+
+
+theorem lemma_parseParts_canonical (l : List Nat) (h : ∀ c ∈ l, c < 1000) :
+    parseParts (l.map natRepr) = some (l.map Int.ofNat) := by
+  induction l with
+  | nil => rfl
+  | cons a t ih =>
+    simp [parseParts, lemma_pyInt_natRepr a (h a (by simp)), ih (fun c hc => h c (by simp [hc]))]
+
+theorem lemma_split_render (l : List Nat) (hne : l ≠ []) : splitOn '.' (join '.' (l.map natRepr)) = l.map natRepr := by
+  apply lemma_splitOn_join
+  · simpa using hne
+  · intro p hp
+    simp only [List.mem_map] at hp
+    obtain ⟨n, _, rfl⟩ := hp
+    exact lemma_natRepr_nodot n
+
+theorem lemma_render_chars (l : List Nat) : ∀ c ∈ join '.' (l.map natRepr), isDigit c = true ∨ c = '.' := by
+  induction l with
+  | nil => simp [join]
+  | cons a t ih =>
+    cases t with
+    | nil => intro c hc; simp [join] at hc; exact Or.inl (lemma_natRepr_isDigit a c hc)
+    | cons b rest =>
+      intro c hc
+      simp only [List.map_cons, join, List.mem_append, List.mem_cons] at hc
+      rcases hc with hc | hc | hc
+      · exact Or.inl (lemma_natRepr_isDigit a c hc)
+      · exact Or.inr hc
+      · exact ih c (by simpa [join] using hc)
+
+
+/-! ### the suffix regex -/
+
+
+theorem lemma_dropWhile_head {α} (p : α → Bool) (l : List α) : ∀ c ∈ (l.dropWhile p).head?, p c = false := by
+  induction l with
+  | nil => simp
+  | cons a t ih =>
+    by_cases ha : p a = true
+    · rw [List.dropWhile_cons_of_pos ha]; exact ih
+    · rw [List.dropWhile_cons_of_neg ha]; intro c hc; simp at hc; subst hc; simpa using ha
+
+theorem lemma_mem_of_mem_dropWhile {α} (p : α → Bool) (l : List α) (c : α) (h : c ∈ l.dropWhile p) : c ∈ l :=
+  (List.dropWhile_sublist p).subset h
+
+theorem lemma_findMarker_none (r : List Char) (h : r = [] ∨ ∃ t, r = '.' :: t) : findMarker r = none := by
+  rcases h with rfl | ⟨t, rfl⟩ <;> simp [findMarker, markers, List.isPrefixOf]
+
+theorem lemma_stripCore_digits_dots (t : List Char) (h : ∀ c ∈ t, isDigit c = true ∨ c = '.') :
+    stripCore t = none := by
+  unfold stripCore
+  simp only
+  split
+  · rfl
+  · have hr : t.reverse.dropWhile isDigit = [] ∨ ∃ u, t.reverse.dropWhile isDigit = '.' :: u := by
+      cases hd : t.reverse.dropWhile isDigit with
+      | nil => exact Or.inl rfl
+      | cons x u =>
+        right
+        have hx : isDigit x = false := by
+          have := lemma_dropWhile_head isDigit t.reverse x (by simp [hd])
+          exact this
+        have hm : x ∈ t := by
+          have : x ∈ t.reverse.dropWhile isDigit := by simp [hd]
+          simpa using lemma_mem_of_mem_dropWhile _ _ _ this
+        rcases h x hm with h1 | h1
+        · simp [hx] at h1
+        · exact ⟨u, by rw [h1]⟩
+    rw [lemma_findMarker_none _ hr]
+
+/-- the marker found after the reversed text `m.reverse ++ c :: s'` (c a digit) is `m` -/
+theorem lemma_findMarker_hit (m : List Char) (hm : m ∈ markers) (c : Char) (hc : isDigit c = true) (s' : List Char) :
+    findMarker (m.reverse ++ c :: s') = some m := by
+  have nd := lemma_not_digit
+  simp only [markers, List.mem_cons, List.mem_nil_iff, or_false] at hm
+  rcases hm with rfl | rfl | rfl | rfl | rfl <;>
+    simp [findMarker, markers, List.isPrefixOf, hc, nd]
+
+theorem lemma_marker_head (m : List Char) (hm : m ∈ markers) : ∀ x ∈ (m.reverse ++ l).head?, isDigit x = false := by
+  have nd := lemma_not_digit
+  simp only [markers, List.mem_cons, List.mem_nil_iff, or_false] at hm
+  rcases hm with rfl | rfl | rfl | rfl | rfl <;> simp [nd]
+
+theorem lemma_stripCore_suffix (s m d : List Char) (c : Char) (hs : s.getLast? = some c) (hc : isDigit c = true)
+    (hm : m ∈ markers) (hd : d ≠ []) (hdd : ∀ x ∈ d, isDigit x = true) :
+    stripCore (s ++ m ++ d) = some s := by
+  obtain ⟨s', rfl⟩ := List.getLast?_eq_some_iff.mp hs
+  have hrev : (s' ++ [c] ++ m ++ d).reverse = d.reverse ++ (m.reverse ++ c :: s'.reverse) := by simp
+  have hrun := lemma_takeWhile_run isDigit d.reverse (m.reverse ++ c :: s'.reverse)
+    (by simpa using hdd) (lemma_marker_head m hm)
+  unfold stripCore
+  simp only [hrev, hrun.1, hrun.2, lemma_findMarker_hit m hm c hc]
+  have : d.reverse.isEmpty = false := by simpa using hd
+  simp [this]
+
+
+/-! ### radix-1000 fold and the str loop -/
+
+
+/-- positional value, radix 1000, over Nat -/
+def valueNat (l : List Nat) : Nat := l.foldl (fun a y => a * 1000 + y) 0
+
+theorem lemma_foldl_cast (xs : List Nat) (x : Nat) :
+    (xs.map Int.ofNat).foldl (fun a y => a * 1000 + y) (x : Int) = ((xs.foldl (fun a y => a * 1000 + y) x : Nat) : Int) := by
+  induction xs generalizing x with
+  | nil => rfl
+  | cons y t ih =>
+    simp only [List.map_cons, List.foldl_cons]
+    have : (x : Int) * 1000 + Int.ofNat y = ((x * 1000 + y : Nat) : Int) := by simp
+    rw [this, ih]
+
+theorem lemma_reduce_cast (l : List Nat) (hne : l ≠ []) :
+    reduce1000 (l.map Int.ofNat) = some ((valueNat l : Nat) : Int) := by
+  cases l with
+  | nil => exact absurd rfl hne
+  | cons x xs =>
+    simp only [List.map_cons, reduce1000, valueNat, List.foldl_cons]
+    have := lemma_foldl_cast xs x
+    simp only [Int.ofNat_eq_natCast] at this ⊢
+    simp [this]
+
+theorem lemma_strLoop_step (v y : Nat) (acc : List (List Char)) (hy : y < 1000) (hv : 0 < v) :
+    strLoop (v * 1000 + y) acc = strLoop v (natRepr y :: acc) := by
+  rw [strLoop]
+  have h1 : v * 1000 + y ≠ 0 := by omega
+  have h2 : (v * 1000 + y) / 1000 = v := by omega
+  have h3 : v * 1000 + y - (v * 1000 + y) / 1000 * 1000 = y := by omega
+  rw [if_neg h1, h3, h2]
+
+theorem lemma_strLoop_fold (xs : List Nat) (x : Nat) (acc : List (List Char)) (hx : 0 < x)
+    (h : ∀ c ∈ xs, c < 1000) :
+    strLoop (xs.foldl (fun a y => a * 1000 + y) x) acc = strLoop x (xs.map natRepr ++ acc) := by
+  induction xs generalizing x acc with
+  | nil => rfl
+  | cons y t ih =>
+    simp only [List.foldl_cons, List.map_cons, List.cons_append]
+    rw [ih (x * 1000 + y) acc (by omega) (fun c hc => h c (by simp [hc]))]
+    have := lemma_strLoop_step x y (t.map natRepr ++ acc) (h y (by simp)) hx
+    rw [this]
+
+
+theorem lemma_strLoop_value (l : List Nat) (hne : l ≠ []) (hh : l.head? ≠ some 0) (h : ∀ c ∈ l, c < 1000) :
+    strLoop (valueNat l) [] = l.map natRepr := by
+  cases l with
+  | nil => exact absurd rfl hne
+  | cons x xs =>
+    have hx : 0 < x := by
+      cases x with
+      | zero => simp at hh
+      | succ k => omega
+    have hx' : x < 1000 := h x (by simp)
+    simp only [valueNat, List.foldl_cons, Nat.zero_mul, Nat.zero_add]
+    rw [lemma_strLoop_fold xs x [] hx (fun c hc => h c (by simp [hc]))]
+    rw [strLoop]
+    have h1 : x ≠ 0 := by omega
+    have h2 : x / 1000 = 0 := by omega
+    rw [if_neg h1, h2, strLoop]
+    simp
+
+
+/-! ### rejected components -/
+
+
+theorem lemma_digitsU_chars (l : List Char) (ds : List Nat) (h : digitsU l = some ds) :
+    ∀ c ∈ l, isDigit c = true ∨ c = '_' := by
+  induction l using digitsU.induct generalizing ds with
+  | case1 => simp [digitsU] at h
+  | case2 c =>
+    intro x hx
+    simp only [List.mem_singleton] at hx; subst hx
+    left
+    simp only [digitsU, Option.map_eq_some_iff] at h
+    obtain ⟨d, hd, _⟩ := h
+    simp [isDigit, hd]
+  | case3 c u rest hc =>
+    simp [digitsU, hc] at h
+  | case4 c rest d hc ih =>
+    simp only [digitsU, hc, if_true, Option.map_eq_some_iff] at h
+    obtain ⟨ds', hds, _⟩ := h
+    intro x hx
+    simp only [List.mem_cons] at hx
+    rcases hx with rfl | rfl | hx
+    · left; simp [isDigit, hc]
+    · right; rfl
+    · exact ih ds' hds x hx
+  | case5 c u rest d hc hu ih =>
+    simp only [digitsU, hc, hu, if_false, Option.map_eq_some_iff] at h
+    obtain ⟨ds', hds, _⟩ := h
+    intro x hx
+    simp only [List.mem_cons] at hx
+    rcases hx with rfl | hx
+    · left; simp [isDigit, hc]
+    · exact ih ds' hds x (by simpa using hx)
+
+theorem lemma_mem_stripInt (l : List Char) (c : Char) (hc : c ∈ l) (hp : isIntSpace c = false) : c ∈ stripInt l := by
+  unfold stripInt
+  have h1 := lemma_mem_dropWhile isIntSpace l c hc hp
+  have h2 := lemma_mem_dropWhile isIntSpace (l.dropWhile isIntSpace).reverse c (by simpa using h1) hp
+  simpa using h2
+
+theorem lemma_mem_signSplit (t : List Char) (c : Char) (hc : c ∈ t) (h1 : c ≠ '+') (h2 : c ≠ '-') :
+    c ∈ (signSplit t).2 := by
+  unfold signSplit
+  split
+  · simp only [List.mem_cons] at hc; rcases hc with rfl | hc
+    · exact absurd rfl h1
+    · exact hc
+  · simp only [List.mem_cons] at hc; rcases hc with rfl | hc
+    · exact absurd rfl h2
+    · exact hc
+  · exact hc
+
+/-- a component containing a character that is neither a decimal digit, nor int() whitespace,
+    nor a sign, nor an underscore is rejected by int() -/
+theorem lemma_pyInt_nonnumeric (p : List Char) (c : Char) (hc : c ∈ p) (hd : isDigit c = false)
+    (hs : isIntSpace c = false) (h1 : c ≠ '+') (h2 : c ≠ '-') (h3 : c ≠ '_') : pyInt p = none := by
+  have hm := lemma_mem_signSplit _ c (lemma_mem_stripInt p c hc hs) h1 h2
+  unfold pyInt
+  simp only
+  cases hdu : digitsU (signSplit (stripInt p)).2 with
+  | none => rfl
+  | some ds =>
+    rcases lemma_digitsU_chars _ ds hdu c hm with h | h
+    · simp [hd] at h
+    · exact absurd h h3
+
+theorem lemma_pyInt_empty : pyInt [] = none := by decide
+
+theorem lemma_parseParts_none (ps : List (List Char)) (p : List Char) (hp : p ∈ ps) (h : pyInt p = none) :
+    parseParts ps = none := by
+  induction ps with
+  | nil => cases hp
+  | cons q t ih =>
+    simp only [parseParts]
+    rcases List.mem_cons.mp hp with rfl | hm
+    · simp [h]
+    · cases pyInt q with
+      | none => rfl
+      | some v => simp [ih hm]
+
+theorem lemma_parseParts_some (ps : List (List Char)) (l : List Int) (h : parseParts ps = some l) :
+    ∀ p ∈ ps, pyInt p ≠ none := by
+  intro p hp hn
+  rw [lemma_parseParts_none ps p hp hn] at h
+  cases h
+
+
+/-! ### the predicate regex -/
+
+
+theorem lemma_opchars_not_space :
+    isReSpace '<' = false ∧ isReSpace '>' = false ∧ isReSpace '!' = false ∧ isReSpace '=' = false := by decide
+
+theorem lemma_stripPrefix_append (op r : List Char) : stripPrefix op (op ++ r) = some r := by
+  induction op with
+  | nil => cases r <;> rfl
+  | cons a t ih => simp [stripPrefix, ih]
+
+theorem lemma_stripPrefix_some (op s r : List Char) (h : stripPrefix op s = some r) : s = op ++ r := by
+  induction op generalizing s with
+  | nil => cases s <;> simp_all [stripPrefix]
+  | cons a t ih =>
+    cases s with
+    | nil => simp [stripPrefix] at h
+    | cons b u =>
+      simp only [stripPrefix] at h
+      split at h
+      · rename_i e; subst e; simp [ih u h]
+      · cases h
+
+theorem lemma_mem_takeWhile {α} (p : α → Bool) (l : List α) (c : α) (h : c ∈ l.takeWhile p) : p c = true := by
+  have := List.all_takeWhile (p := p) (l := l)
+  rw [List.all_eq_true] at this
+  exact this c h
+
+theorem lemma_firstAlt_sound (p1 : List Char) (ops : List (List Char)) (op ver : List Char)
+    (h : firstAlt p1 ops = some (op, ver)) :
+    op ∈ ops ∧ ∃ r, p1 = op ++ r ∧ matchRest r = some ver := by
+  induction ops with
+  | nil => simp [firstAlt] at h
+  | cons o t ih =>
+    simp only [firstAlt] at h
+    split at h
+    · obtain ⟨h1, h2⟩ := ih h; exact ⟨by simp [h1], h2⟩
+    · rename_i r hr
+      split at h
+      · rename_i v hv
+        simp only [Option.some.injEq, Prod.mk.injEq] at h
+        obtain ⟨rfl, rfl⟩ := h
+        exact ⟨by simp, r, lemma_stripPrefix_some _ _ _ hr, hv⟩
+      · obtain ⟨h1, h2⟩ := ih h; exact ⟨by simp [h1], h2⟩
+
+theorem lemma_firstAlt_complete (ops : List (List Char)) (op r ver : List Char) (hop : op ∈ ops)
+    (hm : matchRest r = some ver) : (firstAlt (op ++ r) ops).isSome = true := by
+  induction ops with
+  | nil => cases hop
+  | cons o t ih =>
+    simp only [firstAlt]
+    rcases List.mem_cons.mp hop with rfl | hmem
+    · simp [lemma_stripPrefix_append, hm]
+    · split
+      · exact ih hmem
+      · split
+        · rfl
+        · exact ih hmem
+
+theorem lemma_dropWhile_pre (pre rest : List Char) (c : Char) (hpre : ∀ x ∈ pre, isReSpace x = true)
+    (hc : isReSpace c = false) : (pre ++ c :: rest).dropWhile isReSpace = c :: rest :=
+  (lemma_takeWhile_run isReSpace pre (c :: rest) hpre (by intro x hx; simp at hx; subst hx; exact hc)).2
+
+theorem lemma_op_head (op : List Char) (hop : op ∈ opAlternatives) :
+    ∃ c t, op = c :: t ∧ isReSpace c = false := by
+  have := lemma_opchars_not_space
+  simp only [opAlternatives, List.mem_cons, List.mem_nil_iff, or_false] at hop
+  rcases hop with rfl | rfl | rfl | rfl | rfl | rfl <;> simp [this]
+
+
 end Oslo.Version
